@@ -14,7 +14,7 @@ from . import core, driver, gen, steps, streams, universe, workload
 
 PROP = "C06"
 LEVEL = "fault_enumeration"
-KINDS = ("sim", "bytesio", "buffered")
+KINDS = ("sim", "bytesio", "buffered", "raw")
 FULL_ENUM_LIMIT = 2048
 MEM_GIB = 4.0
 
@@ -44,6 +44,10 @@ def _open_source(kind: str, prefix: bytes, budget: int, chunks):
     if kind == "bytesio":
         return streams.CountingBytesIO(prefix, budget=budget), None
     raw = streams.SimRawSource(prefix, streams.seq_chunker(chunks or []), budget=budget)
+    if kind == "raw":
+        raw = streams.SimRawUnbuffered(raw._data, raw._chunker, budget=budget)
+        # unbuffered raw stream: read(n) may legally come back short before EOF
+        return raw, raw
     return io.BufferedReader(raw, buffer_size=16), raw
 
 
@@ -154,6 +158,8 @@ def run_task(task: dict) -> dict:
                                 c = ch(left)
                                 chunks.append(c)
                                 left -= c
+                        elif kind == "raw":
+                            chunks = streams.short_read_chunks(rng)
                         out = classify(cls, reader, g.data, k, kind, chunks, budget, BufferUnderflow)
                         stats.inc("cases")
                         stats.inc(f"fault_eof_{kind}")
